@@ -1,10 +1,23 @@
 /-
 C07 — Montgomery modular arithmetic equals ordinary arithmetic modulo n.
 Only property theorems live here (helper lemmas: Ymq/Lemmas).
+
+Reading guide. `ZmodN.Valid c` (Ymq/Lemmas/ZmodN.lean) says that the context `c` is what
+`ZmodN::new` builds: `1 ≤ k ≤ 8`, `n` odd, `n < W^k` (`W = 2^64`, so `R = W^k = 2^(64k)`),
+`n·ninv ≡ -1 (mod 2^64)`, `r`, `r2` = the 8-word forms of `R mod n`, `R² mod n`; `new_spec` proves
+that `new n` returns such a context for every odd `n < 2^512`. An `MInt` is a list `m` with
+`m.length = 8` and `Wf m` (all entries `< 2^64`); `val m` is its integer value. `f … = some r`
+means "the Rust routine returns `r` without reaching any panic site (debug assertion, overflow
+check, index check) in either build profile".
+All theorems are about the word-level model (Ymq/Model/{Mg64,Limbs,ZmodN,M128}.lean).
 -/
 import Ymq.Lemmas.Mg64
+import Ymq.Lemmas.ZmodNNew
+import Ymq.Lemmas.M128
 
 namespace Ymq.C07
+
+section Word64
 open Ymq.Mg64
 
 /-- `mg_redc`: on its documented domain (`x < n·2^64`, `n·ninv ≡ -1 mod 2^64`) the routine does
@@ -71,5 +84,307 @@ theorem mgMul_spec (n ninv x y : Nat) (hn : 0 < n) (hnW : n < W) (hninv : (n * n
 /-- non-vacuity: the hypotheses are met by n = 7, ninv = 10540996613548315209. -/
 example : (7 * 10540996613548315209 + 1) % W = 0 ∧ mgMul 7 10540996613548315209 3 5 = some 4 ∧
     4 * W % 7 = 3 * 5 % 7 := by decide
+
+end Word64
+
+/-! ## The multiword ring `ZmodN` -/
+
+open Ymq.Limbs Ymq.ZmodN
+
+/-- `ZmodN::new(n)`: for every odd `n < 2^512` the constructor does not panic (the 2-adic inverse
+loop terminates) and returns a well-formed context with `k = words(n)`. -/
+theorem new_spec (n : Nat) (hodd : n % 2 = 1) (hlt : n < 2 ^ 512) :
+    ∃ c, ZmodN.new n = some c ∧ Valid c ∧ c.n = n ∧ c.k = nwords n :=
+  new_valid' n hodd hlt
+
+/-- `ZmodN::mul` (`_mint_mulmod` + final conditional subtraction), every modulus the constructor
+admits (up to 512 bits): for `x, y < n` no panic site is reached, the result is fully reduced and
+`r·R ≡ x·y (mod n)`. -/
+theorem mulmod_spec (c : Ctx) (hc : Valid c) (x y : List Nat) (hx : Wf x) (hlx : x.length = 8)
+    (hly : y.length = 8) (hvx : val x < c.n) (hvy : val y < c.n) :
+    ∃ r, ZmodN.mul c x y = some r ∧ val r < c.n ∧ val r * W ^ c.k % c.n = val x * val y % c.n ∧
+      r.length = 8 ∧ Wf r :=
+  mul_spec' hc x y hx hlx hly hvx hvy
+
+/-- `_mint_mulmod` alone: for `y < n` and ANY 8 words `x` it returns (no `debug_assert!(z[i] == 0)`
+failure, no out-of-bounds `res[8]` write) a value below `2n` congruent to `x[..k]·y·R⁻¹`. -/
+theorem mintMulmod_spec (c : Ctx) (hc : Valid c) (x y : List Nat) (hx : Wf x) (hlx : x.length = 8)
+    (hly : y.length = 8) (hvy : val y < c.n) :
+    ∃ m, mintMulmod c x y = some m ∧ m.length = 8 ∧ Wf m ∧ val m < 2 * c.n ∧
+      val m * W ^ c.k % c.n = val (x.take c.k) * val y % c.n :=
+  ZmodN.mintMulmod_spec hc x y hx hlx hly hvy
+
+/-- Answer to the `FIXME: can it happen?` in `_mint_mulmod`: no. Whenever the row loop ends with
+`overflow = true`, adding `2^(64k) - n` to the `k` result words produces carry 0, so the
+`res[SIZE] = 1` write (out of bounds for `SIZE = 8`) is unreachable for `y < n`. -/
+theorem mulmod_overflow_carry_zero (c : Ctx) (hc : Valid c) (x y : List Nat) (hx : Wf x)
+    (hlx : x.length = 8) (hly : y.length = 8) (hvy : val y < c.n) (res : List Nat)
+    (hres : mulRows c.k c.ninv (c.nd.take c.k) (y.take c.k) (x.take c.k) (zeros (c.k + 1)) =
+      some (res, true)) :
+    (addc res (compl (c.nd.take c.k)) 1).2 = 0 :=
+  overflow_carry_zero hc x y hx hlx hly hvy res hres
+
+/-- `ZmodN::add` for moduli below 2^511 (`2n ≤ 2^512`; covers the documented 500-bit range):
+no panic, result reduced and `≡ x + y`. See `add_512bit_counterexample` for 512-bit moduli. -/
+theorem add_spec (c : Ctx) (hc : Valid c) (h2n : 2 * c.n ≤ W ^ 8) (x y : List Nat) (hx : Wf x) (hy : Wf y)
+    (hlx : x.length = 8) (hly : y.length = 8) (hvx : val x < c.n) (hvy : val y < c.n) :
+    ∃ r, ZmodN.add c x y = some r ∧ val r < c.n ∧ val r % c.n = (val x + val y) % c.n ∧
+      r.length = 8 ∧ Wf r :=
+  add_spec' hc x y hx hy hlx hly hvx hvy (by right; omega)
+
+/-- `ZmodN::sub` for moduli below 2^511: no panic, result reduced and `r + y ≡ x`. -/
+theorem sub_spec (c : Ctx) (hc : Valid c) (h2n : 2 * c.n ≤ W ^ 8) (x y : List Nat) (hx : Wf x) (hy : Wf y)
+    (hlx : x.length = 8) (hly : y.length = 8) (hvx : val x < c.n) (hvy : val y < c.n) :
+    ∃ r, ZmodN.sub c x y = some r ∧ val r < c.n ∧ (val r + val y) % c.n = val x % c.n ∧
+      r.length = 8 ∧ Wf r :=
+  sub_spec' hc x y hx hy hlx hly hvx hvy (by right; right; omega)
+
+/-- Exact domain of `add`: it also works for 449..512-bit moduli as long as `x + y < 2^512`. -/
+theorem add_spec_partial (c : Ctx) (hc : Valid c) (x y : List Nat) (hx : Wf x) (hy : Wf y)
+    (hlx : x.length = 8) (hly : y.length = 8) (hvx : val x < c.n) (hvy : val y < c.n)
+    (hfit : c.k < 8 ∨ val x + val y < W ^ 8) :
+    ∃ r, ZmodN.add c x y = some r ∧ val r < c.n ∧ val r % c.n = (val x + val y) % c.n ∧
+      r.length = 8 ∧ Wf r :=
+  add_spec' hc x y hx hy hlx hly hvx hvy hfit
+
+/-- Exact domain of `sub`: fine for 8-word moduli unless `x < y` and `x + n ≥ 2^512`. -/
+theorem sub_spec_partial (c : Ctx) (hc : Valid c) (x y : List Nat) (hx : Wf x) (hy : Wf y)
+    (hlx : x.length = 8) (hly : y.length = 8) (hvx : val x < c.n) (hvy : val y < c.n)
+    (hfit : c.k < 8 ∨ val y ≤ val x ∨ val x + c.n < W ^ 8) :
+    ∃ r, ZmodN.sub c x y = some r ∧ val r < c.n ∧ (val r + val y) % c.n = val x % c.n ∧
+      r.length = 8 ∧ Wf r :=
+  sub_spec' hc x y hx hy hlx hly hvx hvy hfit
+
+set_option exponentiation.threshold 600 in
+/-- Counter-witness outside the documented 500-bit range: for the 512-bit modulus `n = 2^512 - 1`
+and `x = y = n - 1` the sum needs 513 bits, `mint_add` drops the carry
+(`debug_assert!(carry == 0)`: panic in the checked profile, i.e. `none` in the model; the release
+build returns `x + y - 2^512`, which is not `x + y mod n`). `sub` has the same shape of failure
+(`x < y`, `x + n ≥ 2^512`) in the checked profile only. -/
+theorem add_512bit_counterexample :
+    (ZmodN.new (2 ^ 512 - 1)).bind
+      (fun c => ZmodN.add c (ofNat 8 (2 ^ 512 - 2)) (ofNat 8 (2 ^ 512 - 2))) = none ∧
+    (ZmodN.new (2 ^ 512 - 1)).bind
+      (fun c => ZmodN.sub c (ofNat 8 1) (ofNat 8 2)) = none := by
+  decide +kernel
+
+/-- `ZmodN::redc` (after the carry fix, commit dcd4c9f) for moduli below 2^511: every 16-word
+`x < n·R` is reduced without panic (the carry ripple never leaves the array) to `r < n` with
+`r·R ≡ x (mod n)`. -/
+theorem redc_spec (c : Ctx) (hc : Valid c) (h2n : 2 * c.n ≤ W ^ 8) (x : List Nat) (hx : Wf x)
+    (hlx : x.length = 16) (hvx : val x < c.n * W ^ c.k) :
+    ∃ r, ZmodN.redc c x = some r ∧ val r < c.n ∧ val r * W ^ c.k % c.n = val x % c.n ∧
+      r.length = 8 ∧ Wf r :=
+  redc_spec' hc x hx hlx hvx (redc_fit_of_small hc _ hvx h2n)
+
+/-- Exact condition used by the proof, valid for every admitted modulus: `x + R·n ≤ 2^1024`. -/
+theorem redc_spec_partial (c : Ctx) (hc : Valid c) (x : List Nat) (hx : Wf x)
+    (hlx : x.length = 16) (hvx : val x < c.n * W ^ c.k) (hfit : val x + W ^ c.k * c.n ≤ W ^ 16) :
+    ∃ r, ZmodN.redc c x = some r ∧ val r < c.n ∧ val r * W ^ c.k % c.n = val x % c.n ∧
+      r.length = 8 ∧ Wf r :=
+  redc_spec' hc x hx hlx hvx hfit
+
+/-- `ZmodN::from_int`: `x < n` is mapped to the reduced representative of `x·R`. -/
+theorem from_int_spec (c : Ctx) (hc : Valid c) (x : Nat) (hx : x < c.n) :
+    ∃ m, ZmodN.fromInt c x = some m ∧ val m = x * W ^ c.k % c.n ∧ m.length = 8 ∧ Wf m := by
+  obtain ⟨m, e1, _, e3, e4, e5⟩ := fromInt_spec hc x hx
+  exact ⟨m, e1, e3, e4, e5⟩
+
+/-- `ZmodN::to_int`, every admitted modulus: `r < n`, `r·R ≡ m`. -/
+theorem to_int_spec (c : Ctx) (hc : Valid c) (m : List Nat) (hm : Wf m) (hlm : m.length = 8)
+    (hvm : val m < c.n) :
+    ∃ r, ZmodN.toInt c m = some r ∧ r < c.n ∧ r * W ^ c.k % c.n = val m % c.n :=
+  toInt_spec hc m hm hlm hvm
+
+/-- Conversion into the internal representation and back is the identity, for every admitted
+modulus (up to 512 bits) and every `x < n`. -/
+theorem from_to_int (c : Ctx) (hc : Valid c) (x : Nat) (hx : x < c.n) :
+    ∃ m, ZmodN.fromInt c x = some m ∧ ZmodN.toInt c m = some x :=
+  from_to_int' hc x hx
+
+/-- `ZmodN::redc_large` for moduli below 2^511: a slice of `k ≤ len ≤ k+16`, `len < 24` words
+with value `< n·R²` is reduced to `r < n`, `r·R ≡ x (mod n)`. -/
+theorem redc_large_spec (c : Ctx) (hc : Valid c) (h2n : 2 * c.n ≤ W ^ 8) (x : List Nat) (hx : Wf x)
+    (hl1 : c.k ≤ x.length) (hl2 : x.length ≤ c.k + 16) (hl3 : x.length < 24)
+    (hvx : val x < c.n * W ^ c.k * W ^ c.k) :
+    ∃ r, ZmodN.redcLarge c x = some r ∧ val r < c.n ∧ val r * W ^ c.k % c.n = val x % c.n ∧
+      r.length = 8 ∧ Wf r :=
+  redcLarge_spec' hc h2n x hx hl1 hl2 hl3 hvx
+
+/-- `ZmodN::inv`, relative to the specification of `arith_gcd::inv_mod` (property C09), given as
+the named hypothesis `inv_mod_spec`: the call returns `None` only if `gcd(x, n) ≠ 1`, and
+otherwise the Montgomery form of the inverse: `r·x ≡ R² (mod n)` (i.e. `r = (x/R)⁻¹·R`).
+Inversion therefore fails exactly when the operand shares a factor with `n`
+(`r·x ≡ R²` with `gcd(R, n) = 1` forces `gcd(x, n) = 1`). -/
+theorem inv_spec (c : Ctx) (hc : Valid c) (invmod : Nat → Nat → Option Nat) (x : List Nat)
+    (inv_mod_spec : ∀ a, match invmod a c.n with
+      | some i => i < c.n ∧ i * a % c.n = 1 % c.n
+      | none => Nat.gcd a c.n ≠ 1) :
+    (Nat.gcd (val x) c.n ≠ 1 ∧ ZmodN.inv invmod c x = some none) ∨
+    (∃ r, ZmodN.inv invmod c x = some (some r) ∧ val r < c.n ∧
+      val r * val x % c.n = W ^ c.k * W ^ c.k % c.n ∧ r.length = 8 ∧ Wf r) :=
+  inv_spec' hc invmod x inv_mod_spec
+
+/-- `ZmodN::gcd` is `gcd(n, x)` by definition of the model (`arith_gcd::big_gcd` is C09). -/
+theorem gcd_spec (c : Ctx) (x : List Nat) : ZmodN.gcd c x = Nat.gcd c.n (val x) := rfl
+
+/-! ### non-vacuity: a concrete 3-word modulus `n = 2^192 - 237` satisfies every hypothesis -/
+
+set_option exponentiation.threshold 600 in
+example : ∃ c, ZmodN.new (2 ^ 192 - 237) = some c ∧ Valid c ∧ 2 * c.n ≤ W ^ 8 := by
+  obtain ⟨c, h1, h2, h3, _⟩ := new_spec (2 ^ 192 - 237) (by decide) (by decide)
+  refine ⟨c, h1, h2, ?_⟩
+  rw [h3]; decide
+
+example :
+    let n := 2 ^ 192 - 237
+    (ZmodN.new n).bind (fun c => ZmodN.mul c (ofNat 8 3) (ofNat 8 5)) =
+      some (ofNat 8 3098822375697222149235389715254417597822681801697434759414) ∧
+    3098822375697222149235389715254417597822681801697434759414 * W ^ 3 % n = 3 * 5 % n ∧
+    (ZmodN.new n).bind (fun c => ZmodN.add c (ofNat 8 3) (ofNat 8 5)) = some (ofNat 8 8) ∧
+    (ZmodN.new n).bind (fun c => ZmodN.sub c (ofNat 8 3) (ofNat 8 5)) = some (ofNat 8 (n - 2)) ∧
+    (ZmodN.new n).bind (fun c => ZmodN.redc c (ofNat 16 12345678901234567890123456789)) =
+      some (ofNat 8 5641445863448789040915709481617068743918577823792107487988) ∧
+    (ZmodN.new n).bind (fun c => ZmodN.fromInt c 42) = some (ofNat 8 9954) ∧
+    (ZmodN.new n).bind (fun c => ZmodN.toInt c (ofNat 8 9954)) = some 42 ∧
+    (ZmodN.new n).bind (fun c => ZmodN.redcLarge c [1, 2, 3, 4, 5]) =
+      some (ofNat 8 5005789991510897317999936911759543325129247206926122638380) ∧
+    (ZmodN.new n).bind (fun c => ZmodN.inv invModRef c (ofNat 8 3)) = some (some (ofNat 8 18723)) := by
+  decide +kernel
+
+/-- the `overflow = true` path of `_mint_mulmod` is really taken (so `mulmod_overflow_carry_zero`
+is not vacuous): `n = 2^64 - 1`, `x = y = n - 1`. -/
+example :
+    mulRows 1 1 [2 ^ 64 - 1] [2 ^ 64 - 2] [2 ^ 64 - 2] (zeros 2) = some ([0], true) := by
+  decide +kernel
+
+/-! ## The 128-bit type `M128` (src/ecm128.rs) -/
+
+/-- `M128::mul`: Montgomery product with multiplier `R = 2^64` when `n < 2^64` (the code then
+calls `mg_mul` on the low words) and `R = 2^128` otherwise; `ninv` must satisfy
+`n·ninv ≡ -1 (mod R)`. No overflow in `mul256`, no underflow in the final correction. -/
+theorem M128_mul_spec (n ninv x y : Nat) (hn : 0 < n) (hn2 : n < M128.W2)
+    (hninv : if n < Mg64.W then (n * ninv + 1) % Mg64.W = 0 else (n * ninv + 1) % M128.W2 = 0)
+    (hx : x < n) (hy : y < n) :
+    ∃ r, M128.mul n ninv x y = some r ∧ r < n ∧
+      r * (if n < Mg64.W then Mg64.W else M128.W2) % n = x * y % n := by
+  by_cases hs : n < Mg64.W
+  · simp only [hs, if_true] at hninv ⊢
+    have hd : n / Mg64.W = 0 := Nat.div_eq_of_lt hs
+    have h1 : (n * (ninv % Mg64.W) + 1) % Mg64.W = 0 := by
+      rw [Nat.add_mod, Nat.mul_mod, Nat.mod_mod, ← Nat.mul_mod, ← Nat.add_mod]; exact hninv
+    unfold M128.mul
+    simp only [hd, if_true, Nat.mod_eq_of_lt hs, Nat.mod_eq_of_lt (lt_trans hx hs),
+      Nat.mod_eq_of_lt (lt_trans hy hs)]
+    exact mgMul_spec n (ninv % Mg64.W) x y hn hs h1 hx (lt_trans hy hs)
+  · simp only [hs, if_false] at hninv ⊢
+    exact M128.mul_spec_big n ninv x y (by omega) hn2 hninv hx (lt_trans hy hn2)
+
+/-- `M128::add`, `M128::sub`: modular addition / subtraction without overflow or underflow. -/
+theorem M128_add_sub_spec (n x y : Nat) (hn2 : n < M128.W2) (hx : x < n) (hy : y < n) :
+    (∃ r, M128.add n x y = some r ∧ r < n ∧ r % n = (x + y) % n) ∧
+    (∃ r, M128.sub n x y = some r ∧ r < n ∧ (r + y) % n = x % n) :=
+  ⟨M128.add_spec n x y hn2 hx hy, M128.sub_spec n x y hn2 hx hy⟩
+
+set_option exponentiation.threshold 600 in
+/-- The 128-bit variant computes the same function as the general ring on its domain: for an odd
+modulus `n < 2^128` (1 or 2 words), `c = ZmodN::new(n)`, and residues `x, y < n`, `M128::mul`,
+`add`, `sub` return exactly the integer value of the `MInt` returned by `ZmodN::mul`, `add`, `sub`
+(same representation: `R = 2^64` for one word, `2^128` for two). -/
+theorem M128_eq_ZmodN (n ninv x y : Nat) (hodd : n % 2 = 1) (hn2 : n < M128.W2)
+    (hninv : if n < Mg64.W then (n * ninv + 1) % Mg64.W = 0 else (n * ninv + 1) % M128.W2 = 0)
+    (hx : x < n) (hy : y < n) (c : Ctx) (hc : ZmodN.new n = some c) :
+    (ZmodN.mul c (fromUint x) (fromUint y)).map val = M128.mul n ninv x y ∧
+    (ZmodN.add c (fromUint x) (fromUint y)).map val = M128.add n x y ∧
+    (ZmodN.sub c (fromUint x) (fromUint y)).map val = M128.sub n x y ∧
+    M128.mul n ninv x y ≠ none := by
+  have hW2 : M128.W2 = Limbs.W ^ 2 := by decide
+  have hWW : Mg64.W = Limbs.W := rfl
+  have hn512 : n < 2 ^ 512 := lt_trans hn2 (by decide)
+  obtain ⟨c', h1, hv, hcn, hck⟩ := new_spec n hodd hn512
+  rw [hc] at h1; cases h1
+  have hnp : 0 < n := by omega
+  have hn8 : n < Limbs.W ^ 8 := hcn ▸ hv.nlt8
+  have hx8 : x < Limbs.W ^ 8 := lt_trans hx hn8
+  have hy8 : y < Limbs.W ^ 8 := lt_trans hy hn8
+  -- R of the two variants agree
+  have hR : (if n < Mg64.W then Mg64.W else M128.W2) = Limbs.W ^ c.k := by
+    have hk2 : nwords n ≤ 2 := nwordsAux_le _ _ _ (by rw [← hW2]; exact hn2)
+    have hk1 : 1 ≤ nwords n := nwordsAux_pos _ _ (by omega)
+    have hlt : n < Limbs.W ^ nwords n :=
+      nwordsAux_lt _ _ (lt_of_lt_of_le hn8 (Nat.pow_le_pow_right Limbs.W_pos (by decide)))
+    by_cases hs : n < Mg64.W
+    · have : nwords n = 1 := by
+        have := nwordsAux_le 200 n 1 (by rw [pow_one]; exact hs)
+        exact Nat.le_antisymm this hk1
+      simp only [hs, if_true, hck, this, pow_one]; rfl
+    · have : nwords n = 2 := by
+        by_contra hne
+        have h1 : nwords n = 1 := by omega
+        rw [h1, pow_one] at hlt
+        exact hs hlt
+      simp only [hs, if_false, hck, this, hW2]
+  have hfit : 2 * c.n ≤ Limbs.W ^ 8 := by
+    rw [hcn]
+    have : M128.W2 * 2 ≤ Limbs.W ^ 8 := by decide
+    omega
+  obtain ⟨r1, a1, a2, a3⟩ := M128_mul_spec n ninv x y hnp hn2 hninv hx hy
+  obtain ⟨m1, b1, b2, b3, _, _⟩ := mulmod_spec c hv (fromUint x) (fromUint y) (fromUint_Wf x)
+    (fromUint_length x) (fromUint_length y) (by rw [fromUint_val hx8, hcn]; exact hx)
+    (by rw [fromUint_val hy8, hcn]; exact hy)
+  obtain ⟨⟨r2, c1, c2, c3⟩, ⟨r3, d1, d2, d3⟩⟩ := M128_add_sub_spec n x y hn2 hx hy
+  obtain ⟨m2, e1, e2, e3, _, _⟩ := add_spec c hv hfit (fromUint x) (fromUint y) (fromUint_Wf x)
+    (fromUint_Wf y) (fromUint_length x) (fromUint_length y)
+    (by rw [fromUint_val hx8, hcn]; exact hx) (by rw [fromUint_val hy8, hcn]; exact hy)
+  obtain ⟨m3, f1, f2, f3, _, _⟩ := sub_spec c hv hfit (fromUint x) (fromUint y) (fromUint_Wf x)
+    (fromUint_Wf y) (fromUint_length x) (fromUint_length y)
+    (by rw [fromUint_val hx8, hcn]; exact hx) (by rw [fromUint_val hy8, hcn]; exact hy)
+  rw [fromUint_val hx8, fromUint_val hy8, hcn] at b3 e3 f3
+  rw [hcn] at b2 e2 f2
+  rw [hR] at a3
+  refine ⟨?_, ?_, ?_, by rw [a1]; simp⟩
+  · rw [a1, b1, Option.map_some]
+    congr 1
+    have : val m1 % c.n = r1 % c.n := cancel_R hv (by rw [hcn, b3, a3])
+    rw [hcn, Nat.mod_eq_of_lt b2, Nat.mod_eq_of_lt a2] at this
+    exact this
+  · rw [c1, e1, Option.map_some]
+    congr 1
+    have : val m2 % n = r2 % n := by rw [e3, c3]
+    rwa [Nat.mod_eq_of_lt e2, Nat.mod_eq_of_lt c2] at this
+  · rw [d1, f1, Option.map_some]
+    congr 1
+    have h1 : (val m3 + y) % n = (r3 + y) % n := by rw [f3, d3]
+    have h2 : val m3 % n = r3 % n := Nat.ModEq.add_right_cancel' y h1
+    rwa [Nat.mod_eq_of_lt f2, Nat.mod_eq_of_lt d2] at h2
+
+/-- non-vacuity of the M128 theorems: `n = 2^128 - 159` (two words) with its 128-bit inverse. -/
+example :
+    let n := 340282366920938463463374607431768211297
+    let ninv := 235415473970460572207366080613172976479
+    n % 2 = 1 ∧ n < M128.W2 ∧ ¬ n < Mg64.W ∧ (n * ninv + 1) % M128.W2 = 0 ∧
+    M128.mul n ninv 3 5 = some 128408440347523948476745134879912532565 ∧
+    (ZmodN.new n).bind (fun c => (ZmodN.mul c (fromUint 3) (fromUint 5)).map val) =
+      some 128408440347523948476745134879912532565 := by
+  decide +kernel
+
+/-- `M128::inv_2adic`: whenever it returns, the result is the negated 2-adic inverse modulo `R`
+(`R = 2^64` for `n < 2^64`, else `2^128`). PARTIAL: totality on all odd `n` is NOT claimed, because
+it is false for the checked profile (see `M128_inv2adic_overflow_witness`); for `n < 2^64` the
+routine is `mg_2adic_inv` and is total (`Ymq.Mg64.Mg64.mg2adicInv_odd`). -/
+theorem M128_inv2adic_spec_partial (n v : Nat) (h : M128.inv2adic n = some v) :
+    if n < Mg64.W then (n * v + 1) % Mg64.W = 0 else (n * v + 1) % M128.W2 = 0 :=
+  M128.inv2adic_sound n v h
+
+/-- non-vacuity: `inv_2adic` does return on ordinary moduli -/
+example : M128.inv2adic 340282366920938463463374607431768211297 =
+    some 235415473970460572207366080613172976479 := by decide +kernel
+
+/-- Counter-witness (checked profile only): for `n = (2^129 + 1)/3` the loop of `M128::inv_2adic`
+is started from `mg_2adic_inv(n as u64) = 2^64 - 3` (the NEGATED 64-bit inverse), reaches
+`x = 2^127 + 3` and then executes `x += 1 << 127`, which overflows `u128`: panic with overflow
+checks (`none` in the model). The release build wraps to `x = 3` and returns the right value. -/
+theorem M128_inv2adic_overflow_witness :
+    M128.inv2adic 226854911280625642308916404954512140971 = none := by decide +kernel
 
 end Ymq.C07
